@@ -2,7 +2,7 @@
    Model: Flags.get_log_fluxes_m / chi_term / chi2_m, FitCore.fit2_avsc, Fit3.optscale_av_m.  Proofs: Flags, FlagsProofs, FitModelProofs. *)
 From Coq Require Import QArith List ZArith Bool.
 Import ListNotations.
-From SedV Require Import Clamp FitCore Flags Fit3 FitModel FitModelProofs FlagsProofs.
+From SedV Require Import Clamp FitCore Flags Fit3 FitModel FitModelProofs FlagsProofs FitMask.
 Open Scope Q_scope.
 
 (* rows built from any source have zero weight off flags 1 and 4 (so the hypotheses below are met by every source) *)
@@ -57,3 +57,28 @@ Example C03_example :
   n_data_m [ {| rb_flag := 1; rb_flux := 1; rb_err := 1 |}; {| rb_flag := 9; rb_flux := -999; rb_err := 0 |};
              {| rb_flag := 4; rb_flux := 1; rb_err := 1 |}; {| rb_flag := 2; rb_flux := 1; rb_err := 1 |} ] = 2%nat.
 Proof. reflexivity. Qed.
+
+(* --- the remove_resolved step (FitMask): which (model, distance) entries are removed depends only on the bands that constrain
+   the fit.  Flags 0 and 9 and confidence-0 limits are not looked at, whatever values they carry and whatever the resolved-mask
+   says about their band; fitted bands and limits with non-zero confidence are. *)
+Theorem C03_mask_flag0 : forall r, rb_flag r = 0%Z -> FitMask.band_used r = false.
+Proof. exact FitMask.band_used_0. Qed.
+Theorem C03_mask_flag9 : forall r, rb_flag r = 9%Z -> FitMask.band_used r = false.
+Proof. exact FitMask.band_used_9. Qed.
+Theorem C03_mask_conf0 : forall r, (rb_flag r = 2 \/ rb_flag r = 3)%Z -> rb_err r == 0 -> FitMask.band_used r = false.
+Proof. exact FitMask.band_used_conf0. Qed.
+Theorem C03_mask_fitted : forall r, (rb_flag r = 1 \/ rb_flag r = 4)%Z -> FitMask.band_used r = true.
+Proof. exact FitMask.band_used_fitted. Qed.
+Theorem C03_mask_limit : forall r, (rb_flag r = 2 \/ rb_flag r = 3)%Z -> ~ rb_err r == 0 -> FitMask.band_used r = true.
+Proof. exact FitMask.band_used_limit. Qed.
+Theorem C03_mask_blind : forall raws ext raws' ext', FitMask.same_use raws ext raws' ext' ->
+  FitMask.any_ext (FitMask.valid_pos raws) ext = FitMask.any_ext (FitMask.valid_pos raws') ext'.
+Proof. exact FitMask.any_ext_same_use. Qed.
+
+Example C03_mask_example :
+  FitMask.same_use [ {| rb_flag := 1; rb_flux := 1; rb_err := 1 |}; {| rb_flag := 9; rb_flux := 5; rb_err := 1 |}; {| rb_flag := 3; rb_flux := 2; rb_err := 0 |} ]
+                   [false; true; true]
+                   [ {| rb_flag := 4; rb_flux := 0; rb_err := 1 |}; {| rb_flag := 0; rb_flux := -999; rb_err := -1 |}; {| rb_flag := 0; rb_flux := 0; rb_err := 0 |} ]
+                   [false; false; false]
+  /\ FitMask.any_ext (FitMask.valid_pos [ {| rb_flag := 1; rb_flux := 1; rb_err := 1 |}; {| rb_flag := 9; rb_flux := 5; rb_err := 1 |} ]) [false; true] = false.
+Proof. split; [|reflexivity]. apply FitMask.su_used; try reflexivity. apply FitMask.su_unused; try reflexivity. apply FitMask.su_unused; try reflexivity. constructor. Qed.
